@@ -32,6 +32,7 @@ def main():
     keep = False
     suite = False
     checks_override = None
+    src_override = None
     patches = []
     work = "/tmp/mutwork-%d" % os.getpid()
     i = 0
@@ -47,6 +48,9 @@ def main():
         elif a == "--work":
             i += 1
             work = args[i]
+        elif a == "--src":
+            i += 1
+            src_override = args[i]
         elif a == "--checks":
             i += 1
             checks_override = args[i].split(",")
@@ -86,7 +90,7 @@ def main():
         ct = open(os.path.join(HERE, "harness", "Cargo.toml")).read().replace('"/repo/', '"%s/' % repo)
         open(os.path.join(harness, "Cargo.toml"), "w").write(ct)
         shutil.copy2(os.path.join(HERE, "harness", "Cargo.lock"), os.path.join(harness, "Cargo.lock"))
-        os.symlink(os.path.join(HERE, "harness", "src"), os.path.join(harness, "src"))
+        os.symlink(src_override or os.path.join(HERE, "harness", "src"), os.path.join(harness, "src"))
     env = dict(os.environ, VERIF_REPO=repo, VERIF_HARNESS=harness, VERIF_OUT=out, CARGO_NET_OFFLINE="true")
     results = []
     for p in patches:
